@@ -218,12 +218,12 @@ doneVisited:
 		if isS {
 			for i := 0; i < st.NumFields(); i++ {
 				fl := st.Field(i)
-				if isTS(fl.Type()) && fl.Name() != "root" { // root is derived state of typedefs, not a component
-					want = append(want, fl.Name())
+				if isTS(fl.Type()) && core.FieldName(fl) != "root" { // root is derived state of typedefs, not a component
+					want = append(want, core.FieldName(fl))
 				}
 				// a field group (struct fields) delegates
 				if core.TypeLabel(fl.Type()) == "compile.FieldGroup" {
-					want = append(want, fl.Name()+"→FieldGroup")
+					want = append(want, core.FieldName(fl)+"→FieldGroup")
 				}
 			}
 		}
@@ -356,7 +356,7 @@ func fieldChaseLoop(c *core.Ctx, f *ssa.Function, body map[*ssa.BasicBlock]bool)
 				})
 			}
 			if onlyCtor {
-				return "pointer chase along field " + fld.Name() + ", which is only written while its owner is constructed (chains are finite and acyclic); leaves on nil", true
+				return "pointer chase along field " + core.FieldName(fld) + ", which is only written while its owner is constructed (chains are finite and acyclic); leaves on nil", true
 			}
 		}
 	}
